@@ -329,7 +329,38 @@ def r8_last_ref_wakes(ctx, rid='C19.R8'):
     r.check(bool(decs) and all(f.dominated_by_blocks(w, decs) for w in wakes), 'drop_stream_ref|refs-first', f.file, 'Inner.refs is decremented before the connection is woken')
 
 
+DRAINS = [
+    (P + 'streams::drop_stream_ref', 'the unreachable push promises of a dropped request are all cancelled, not just the first'),
+    (P + 'recv::Recv::clear_stream_window_update_queue', 'teardown drains the whole queue'),
+    (P + 'recv::Recv::clear_all_reset_streams', 'teardown drains the whole queue'),
+    (P + 'recv::Recv::clear_all_pending_accept', 'teardown drains the whole queue'),
+    (P + 'recv::Recv::clear_expired_reset_streams', 'every expired reset is released in one pass'),
+    (P + 'prioritize::Prioritize::clear_pending_capacity', 'teardown drains the whole queue'),
+    (P + 'prioritize::Prioritize::clear_pending_send', 'teardown drains the whole queue'),
+    (P + 'prioritize::Prioritize::clear_pending_open', 'teardown drains the whole queue'),
+]
+
+
+def r10_drains_loop(ctx, rid='C19.R10'):
+    r = ctx.rule(rid, 'PASS', 'queue drains are loops: every reviewed drain pops until the queue is empty')
+    F = ctx.facts
+    n = 0
+    for fname, why in DRAINS:
+        fam = [f for nme, f in F.fns.items() if nme == fname or nme.startswith(fname + '::{closure')]
+        if not fam:
+            r.bad('drain|anchor|' + fname.split('::')[-1], '', '%s not found' % fname)
+            continue
+        pops = [(f, bi) for f in fam for bi, t in f.calls(lambda t: t['fn'] in (P + 'store::Queue::pop', P + 'store::Queue::pop_if'))]
+        r.check(bool(pops), 'drain|pops|' + fname.split('::')[-1], fam[0].file, '%s pops from a queue' % fname.split('::')[-1])
+        for f, bi in pops:
+            n += 1
+            looped = bi in f.reachable(f.succ[bi])
+            r.check(looped, 'drain|loop|' + fname.split('::')[-1], f.loc(bi), '%s: the pop is %s. %s' % (fname.split('::')[-1], 'inside a loop' if looped else 'NOT inside a loop: only the first queued stream is handled, the rest stay linked and counted', why))
+    r.floor(n, 8, 'drain sites')
+
+
 def run(ctx):
+    r10_drains_loop(ctx)
     r8_last_ref_wakes(ctx)
     r1_registry(ctx)
     r2_removal(ctx)
